@@ -6,6 +6,7 @@ import (
 	"crypto"
 	"crypto/ecdsa"
 	"crypto/elliptic"
+	"crypto/md5"
 	"crypto/rand"
 	"crypto/rsa"
 	"crypto/sha1"
@@ -709,6 +710,15 @@ func main() {
 					md5t := append([]byte{0x30, 0x20, 0x30, 0x0c, 0x06, 0x08, 0x2a, 0x86, 0x48, 0x86, 0xf7, 0x0d, 0x02, 0x05, 0x05, 0x00, 0x04, 0x10}, gen.Bytes(kc.Rand, 16)...)
 					submit(d, d.f9, attCase{What: "md5:" + form, Expect: "reject", Alg: int(x509.MD5WithRSA)}, em(d.k, md5t), nil, tbs)
 					submit(d, d.f9, attCase{What: "md2-label:" + form, Expect: "reject", Alg: int(x509.MD2WithRSA)}, em(d.k, md5t), nil, tbs)
+					// ... also when the signature is a genuine MD5 signature of the body by the device key, in either
+					// DigestInfo form (a certificate an old tool chain really made)
+					sum := md5.Sum(tbs)
+					md5good := append([]byte{0x30, 0x20, 0x30, 0x0c, 0x06, 0x08, 0x2a, 0x86, 0x48, 0x86, 0xf7, 0x0d, 0x02, 0x05, 0x05, 0x00, 0x04, 0x10}, sum[:]...)
+					md5goodNoNull := append([]byte{0x30, 0x1e, 0x30, 0x0a, 0x06, 0x08, 0x2a, 0x86, 0x48, 0x86, 0xf7, 0x0d, 0x02, 0x05, 0x04, 0x10}, sum[:]...)
+					for _, lbl := range []x509.SignatureAlgorithm{x509.MD5WithRSA, x509.MD2WithRSA} {
+						submit(d, d.f9, attCase{What: fmt.Sprintf("genuine-md5-signature-under-label-%d:", int(lbl)) + form, Expect: "reject", Alg: int(lbl)}, em(d.k, md5good), nil, tbs)
+						submit(d, d.f9, attCase{What: fmt.Sprintf("genuine-md5-signature-no-null-under-label-%d:", int(lbl)) + form, Expect: "reject", Alg: int(lbl)}, em(d.k, md5goodNoNull), nil, tbs)
+					}
 					// chain relations, each with the CORRECT signature
 					chains := []struct {
 						what   string
